@@ -10,6 +10,7 @@ import (
 	"fmt"
 	"io"
 	"os"
+	"time"
 
 	log "github.com/sirupsen/logrus"
 
@@ -53,12 +54,28 @@ func main() {
 			fmt.Fprintln(w, eng.gen(root.Fork(), i, *focus).String())
 		}
 	case "run":
+		limit := 60 * time.Second
+		if os.Args[1] == "e1" {
+			limit = 150 * time.Second // scenarios with supervisor pauses (10 s each) and shutdown timeouts
+		}
+		hangs := 0
 		err := sx.ReadLines(bufio.NewReader(os.Stdin), func(line string) error {
 			in, err := sx.Parse(line)
 			if err != nil {
 				return err
 			}
-			obs := runProtected(eng, in)
+			obs, hung := runWatched(eng, in, limit)
+			if hung {
+				// the code under test never came back (deadlock, lost wake-up): reported like a crash of this case; the
+				// goroutine is abandoned.  After three of them the shard stops: the remaining cases are not run.
+				fmt.Fprintf(w, "CRASH hang: the case did not finish within %v\n", limit)
+				hangs++
+				if hangs >= 3 {
+					w.Flush()
+					os.Exit(0)
+				}
+				return nil
+			}
 			fmt.Fprintln(w, sx.T(in, obs).String())
 			return nil
 		})
@@ -73,6 +90,18 @@ func main() {
 }
 
 // a panic in the code under test is an observation: (-1)
+// runWatched runs one case with a watchdog.
+func runWatched(eng engine, in sx.Tree, limit time.Duration) (sx.Tree, bool) {
+	ch := make(chan sx.Tree, 1)
+	go func() { ch <- runProtected(eng, in) }()
+	select {
+	case obs := <-ch:
+		return obs, false
+	case <-time.After(limit):
+		return sx.Tree{}, true
+	}
+}
+
 func runProtected(eng engine, in sx.Tree) (obs sx.Tree) {
 	defer func() {
 		if r := recover(); r != nil {
